@@ -214,6 +214,7 @@ pub fn run(ctx: Ctx, replay: Option<PathBuf>) -> i32 {
     let all: Vec<usize> = (0..8).collect();
     let outcomes = par_map(&items, ctx.threads, |i, it| evaluate(&ctx, &ctx.work.join(format!("g{i}")), it, &all));
     let mut rejected_templates = 0;
+    let mut reported = std::collections::BTreeSet::new();
     for (i, (it, oc)) in items.iter().zip(outcomes).enumerate() {
         let kind = if i < n_corpus { "corpus" } else { "template" };
         if let Some(why) = &oc.skipped {
@@ -244,7 +245,7 @@ pub fn run(ctx: Ctx, replay: Option<PathBuf>) -> i32 {
             ck.sample(json!({"grammar": it.name, "text": it.text.chars().take(1500).collect::<String>(), "default_tokens": oc.default_tokens, "combinations_compared": oc.compared, "outcome": if oc.failures.is_empty() { "equal" } else { "DIFFERENT" }}));
         }
         for (k, sig, what, obs) in oc.failures {
-            if ck.is_known(&sig) {
+            if ck.is_known(&sig) || !reported.insert(sig.clone()) {
                 ck.violation(&sig, &what, json!({}));
                 continue;
             }
